@@ -42,6 +42,14 @@ int main(int argc, char** argv) {
     vh::Rng rng(a.seed);
     std::vector<int> pre(NREG), post(NREG);
     long emitted = 0;
+    if (a.mode == "states") {   // just random well-formed complete register states (sample space of RoundTrip.tla)
+        for (; emitted < a.n; ++emitted) {
+            vstate::random_state(rng, pre.data());
+            o.begin(); o.str("e", "St"); o.raw("pre", vh::arr(pre.begin(), pre.end())); o.end();
+        }
+        o.close();
+        return 0;
+    }
     while (emitted < a.n) {
         int which = rng.below(19), idx = 0;
         for_words([&](const char* name, auto set, auto get) {
